@@ -24,8 +24,11 @@ CLAIMED = {
     "C17": dict(
         text="Theorems: every reported database/WAL/frame/journal header field is the big-endian value at its offset; an accepted "
              "database header satisfies the six format rules; every header SQLite writes is accepted; only the documented error "
-             "classes occur. Tied by correspondence over field perturbations and per-commit PRAGMA values of WAL histories.",
-        design="§9 C17", note=NOTE + "header difference classification across commits is modelled and tied by correspondence (its theorems are partial).", technique=T),
+             "classes occur; the header-difference classification across commits accepts exactly the legal header transitions "
+             "(Properties/C17Step: sound and complete w.r.t. Spec.HeaderStep, which is run on consecutive headers of SQLite-written "
+             "histories). Tied by correspondence over field perturbations (every value of the 1- and 2-byte fields) and per-commit "
+             "PRAGMA values of WAL histories.",
+        design="§9 C17", note=NOTE + "reserved-bytes-per-page != 0 is refused by the tool although SQLite allows it (stated assumption).", technique=T),
     "C02": dict(
         text="Theorems on the WAL model: grouping of valid frames into commit records (nothing lost, each record ends in its only commit frame), version count = commit frames, page->frame and page->version indices answer every lookup with the latest frame / record (also with duplicate pages in one transaction), frame image offset = file-format offset, where each version reads each page from (wal_page_source, history_indices), stale-salt frames never served, accepted logs end in a commit frame. Row-level claims by vh.dump correspondence + per-commit SQLite snapshots, an independent checksum-verifying WAL reader for page images, and SQLite's own view of the pair for the newest version.",
         design="§9 C02", note=NOTE + "content level proved (Properties/C02Content: version k serves, for every page it covers, exactly SQLite's snapshot page after the k-th transaction - latest frame at or before the commit else the database file's page; a page written twice shows its last image; every byte taken from the log lies inside the valid run); joined with the tree theorem of C01 in Properties/C02Rows.version_rows: a table b-tree laid out in SQLite's snapshot after the k-th commit (Spec.snapshotIf) is reported by version k with exactly its rows (likewise index entries), and version k parses any root to the same tree as the snapshot; WAL checksums are not read by the tool.", technique=T),
